@@ -123,6 +123,12 @@ pub struct C11Scenario {
     /// resolves required paths but never reads them)
     #[serde(default)]
     pub keep_bad_in_reference: bool,
+    /// sources that may or may not be processable (a script starting with `#!`: refused
+    /// by the token-preserving parser of this darklua version, accepted otherwise): the
+    /// reference run leaves them out, they may be reported or written, and nothing is
+    /// demanded of them - only of the files around them
+    #[serde(default)]
+    pub maybe_bad: Vec<String>,
 }
 
 // ---------------------------------------------------------------- C10
